@@ -37,6 +37,9 @@ PoolC16 == <<
   \* IDN locations, also in non-first position of a location list
   HideR({H("a.com"), H("пример.рф"), E("пример")}, ".idn"), UnhideR({H("b.com"), H("s.пример.рф")}, ".idn"),
   HideR({H("bücher.a.com"), NH("a.com")}, ".idn2"),
+  \* negated hostnames AND negated entities in one rule (both kinds must be honoured)
+  HideR({NH("b.com"), NE("a")}, ".mixn"), ActR({E("a"), NH("t.s.a.com"), NE("s.a")}, ".mixa", "remove", ""),
+  JsR({E("a"), NH("a.com"), NE("s.a")}, "sc1, m", {}),
   \* two IDN locations that cover disjoint hosts (each must be converted on its own), also negated
   HideR({H("пример.рф"), H("bücher.a.com")}, ".idn3"), HideR({NH("s.пример.рф"), NH("bücher.a.com")}, ".idn4"),
   \* hosts whose name contains the text of their public suffix before the suffix itself
